@@ -5,7 +5,7 @@ package main
 // C13 — presence converges; user ids address one live user.
 //
 // Direct mode over the real MemClientMgr and the real handlers: generated histories of connect /
-// agreed / set-client-user-info / set-user / disconnect / instant message / fetch; the harness keeps an
+// agreed / set-client-user-info / set-user / disconnect / going away (what keepaliveHandler does after 300 idle seconds) and coming back (a request through the real handleTransaction) / instant message / fetch; the harness keeps an
 // inbox per connection (every transaction a handler returned or queued, routed by its ClientID through
 // the real client table, as sendTransaction does), folds each client's roster from its inbox and
 // compares it with a fresh user-list reply whenever no login is half-way.  Synthetic long histories
@@ -350,6 +350,63 @@ func (h *c13run) agree(r *RNG, cl *c13cl) {
 	}
 }
 
+// goAway does for one client what keepaliveHandler does once it has been idle for more than 300 s: set the away flag
+// and tell everybody (SendAll), the user itself included.
+func (h *c13run) goAway(cl *c13cl) {
+	if cl.cc.Flags.IsSet(hotline.UserFlagAway) {
+		return
+	}
+	cl.cc.Flags.Set(hotline.UserFlagAway, 1)
+	cl.cc.SendAll(
+		hotline.TranNotifyChangeUser,
+		hotline.NewField(hotline.FieldUserID, cl.cc.ID[:]),
+		hotline.NewField(hotline.FieldUserFlags, cl.cc.Flags[:]),
+		hotline.NewField(hotline.FieldUserName, cl.cc.UserName),
+		hotline.NewField(hotline.FieldUserIconID, cl.cc.Icon),
+	)
+	outs := syncOutbox(h.ts)
+	h.record(fmt.Sprintf("AW %d", cl.id), outs)
+	h.othersNotified(cl, outs, true, "going away")
+	h.ops["away"]++
+}
+
+// activity sends a user-list request through the real handleTransaction (handler, then the idle bookkeeping: an away
+// user is marked back and everybody must be told, the user itself included).
+func (h *c13run) activity(cl *c13cl) {
+	wasAway := cl.cc.Flags.IsSet(hotline.UserFlagAway)
+	h.req++
+	func() {
+		defer func() {
+			if p := recover(); p != nil {
+				h.c.Note("panic", fmt.Sprint(p))
+				h.c.Violation("presence-handler-panic", "handleTransaction panicked on a user-list request")
+			}
+		}()
+		cl.cc.VerifHandleTransaction(mkTran(hotline.TranGetUserNameList, h.req))
+	}()
+	outs := syncOutbox(h.ts)
+	var replies, rest []hotline.Transaction
+	for _, t := range outs {
+		if t.IsReply == 1 {
+			replies = append(replies, t)
+		} else {
+			rest = append(rest, t)
+		}
+	}
+	cl.fetched = true
+	h.record(fmt.Sprintf("F %d %d", cl.id, h.req), replies)
+	h.record(fmt.Sprintf("WK %d", cl.id), rest)
+	if cl.cc.Flags.IsSet(hotline.UserFlagAway) {
+		h.c.Violation("away-not-cleared", "a request other than a keep-alive left the user marked away")
+	}
+	if wasAway {
+		h.othersNotified(cl, rest, true, "coming back from away")
+		h.ops["back-from-away"]++
+	} else {
+		h.ops["activity"]++
+	}
+}
+
 func (h *c13run) fetch(cl *c13cl) {
 	h.req++
 	outs, ok := h.call(cl, mkTran(hotline.TranGetUserNameList, h.req))
@@ -416,6 +473,16 @@ func (h *c13run) step(r *RNG) {
 	switch {
 	case op < 10 && len(lv) < 8:
 		h.connect(r)
+	case op < 16:
+		// idle for more than five minutes, or active again (through the real handleTransaction)
+		if !actor.agreed {
+			return
+		}
+		if actor.cc.Flags.IsSet(hotline.UserFlagAway) || r.Chance(35) {
+			h.activity(actor)
+		} else {
+			h.goAway(actor)
+		}
 	case op < 28:
 		// complete a half-way login if there is one
 		for _, c := range lv {
